@@ -54,6 +54,16 @@ TRUSTED = ['numpy (inner, dot, floor, min/max, inv, lstsq) inside the implementa
 
 TOL = 1e-9
 
+# Derived rounding bounds for IEEE double evaluation (u = 2^-53), used wherever a history is compared.
+#   scaled coordinate   s = inner(p - o, inv(V).T):  |ds| <= CS u kappa (1 + |s|)     kappa = || |V| |V^-1| ||
+#   rebuilt position    p' = (s - f) V + o:          |dp| <= (CS kappa + 8) u (1 + |s|) |V| + 8 u |o|
+# CS = 32 is ten times the largest ratio observed over 10^5 random cells/atoms up to 10^6 cells outside
+# (2.9, reached for orthogonal cells where only the roundings of p - o and of s itself contribute).
+U = 2.0 ** -53
+CS = 32.0
+# normalize adds sqrt / arccos / cos / division of the cell parameters and a least-squares solve
+CN = 256.0
+
 
 # ----------------------------------------------------------------------------------------
 # exact 3x3 helpers
@@ -105,6 +115,52 @@ def _rel(p, V, Vinv, o):
 
 def _nearint(x: F):
     return math.floor(x + F(1, 2))
+
+
+def _kappa(Vf):
+    """|| |V| |V^-1| || (max column sum): the condition number that governs s = (p - o) V^-1."""
+    Vi = _inv(Vf)
+    P = _mm([[abs(x) for x in r] for r in Vf], [[abs(x) for x in r] for r in Vi])
+    return float(max(sum(P[j][i] for j in range(3)) for i in range(3)))
+
+
+def _kappa2(Vf):
+    """normwise condition number ||V|| ||V^-1|| (row-sum norms): governs the least-squares solve of normalize."""
+    Vi = _inv(Vf)
+    return float(max(sum(abs(x) for x in r) for r in Vf) * max(sum(abs(x) for x in r) for r in Vi))
+
+
+CLEAN = 1e-9 * (1 + 1e-6)      # the "zero out near zero terms" threshold of the Box.vects setter (relative to max|vects|)
+
+
+def _es(kap, smax, c=CS):
+    return c * U * kap * (1.0 + smax)
+
+
+def _ep(kap, smax, nV, omax, c=CS):
+    return (c * kap + 8.0) * U * (1.0 + smax) * nV + 8.0 * U * omax
+
+
+def _er(kap, smax, omax, rinv, c=CS):
+    """bound, in cell units, on a rebuilt position: the error of s plus the roundings of s V + o seen through V^-1."""
+    return (c + 8.0) * U * kap * (1.0 + smax) + 8.0 * U * omax * rinv
+
+
+def _colsum(Vi):
+    return float(max(sum(abs(Vi[j][k]) for j in range(3)) for k in range(3)))
+
+
+MARGIN = {}        # clause -> largest observed (error / bound) on this run; reported in the evidence file
+
+
+def _over(name, err, bound):
+    """is `err` beyond `bound`?  Also records how much of the bound was used."""
+    err = float(err)
+    if bound > 0:
+        r = err / bound
+        if r > MARGIN.get(name, 0.0):
+            MARGIN[name] = r
+    return err > bound
 
 
 # ----------------------------------------------------------------------------------------
@@ -535,6 +591,528 @@ def _norm_raise_exempt(case, spos=None):
     return False
 
 
+# ----------------------------------------------------------------------------------------
+# histories on ONE System object (hidden state: the Box's cached reciprocal vectors)
+# ----------------------------------------------------------------------------------------
+def _state(system):
+    """the visible state of a live system in the form of a case (exact floats)."""
+    return {'vects': system.box.vects.tolist(), 'origin': system.box.origin.tolist(),
+            'pbc': [bool(p) for p in system.pbc], 'pos': system.atoms.view['pos'].tolist()}
+
+
+def _inv_exact(V):
+    """is numpy's inverse of this cell exact (so that scaled coordinates on the grid are computed exactly)?"""
+    import numpy as np
+    try:
+        R = np.linalg.inv(np.array(V, dtype=float)).T
+    except Exception:  # noqa
+        return False
+    want = _tr(_inv(_fm(V)))
+    return all(F(float(R[i][j])) == want[i][j] for i in range(3) for j in range(3))
+
+
+def _concretize(system, op):
+    """turn the recipe of a box operation into the concrete numbers handed to the implementation."""
+    import numpy as np
+    if op['op'] not in ('boxset', 'setvects'):
+        return op
+    V, o = system.box.vects, system.box.origin
+    if op.get('same'):
+        Vn = V
+    elif 'left' in op:
+        Vn = np.array(op['left'], dtype=float) @ V
+    elif 'right' in op:
+        Vn = V @ np.array(op['right'], dtype=float)
+    else:
+        Vn = np.array(op['vects'], dtype=float)
+    og = op.get('origin', 'keep')
+    if isinstance(og, str) and og == 'follow' and 'right' in op:
+        on = o @ np.array(op['right'], dtype=float)
+    elif isinstance(og, str):
+        on = o
+    else:
+        on = np.array(og, dtype=float)
+    how = op.get('how', 'vects')
+    lower = Vn[0, 1] == 0 and Vn[0, 2] == 0 and Vn[1, 2] == 0 and Vn[0, 0] > 0 and Vn[1, 1] > 0 and Vn[2, 2] > 0
+    if how == 'lengths' and not lower:
+        how = 'avect'
+    return dict(op, how=how, V=Vn.tolist(), o=on.tolist())
+
+
+def _op_line(c):
+    k = c['op']
+    if k == 'boxset':
+        return f"boxset {int(bool(c['scale']))} " + cm.frs([x for r in c['V'] for x in r]) + ' ' + cm.frs(c['o'])
+    if k == 'setvects':
+        return 'setvects ' + cm.frs([x for r in c['V'] for x in r])
+    if k == 'setorigin':
+        return 'setorigin ' + cm.frs(c['origin'])
+    if k == 'setpbc':
+        return 'setpbc ' + ' '.join('1' if p else '0' for p in c['pbc'])
+    return k
+
+
+def _apply(system, c):
+    """one operation on the live object; returns what the call hands back."""
+    import numpy as np
+    k = c['op']
+    if k == 'spos':
+        return system.atoms_prop('pos', scale=True)
+    if k == 'wrap':
+        return system.wrap(return_imageflags=True)
+    if k == 'norm':
+        return system.normalize(return_transform=True)
+    if k == 'rebuild':
+        b = system.box
+        return system.box_set(a=b.a, b=b.b, c=b.c, alpha=b.alpha, beta=b.beta, gamma=b.gamma, scale=True)
+    if k == 'setorigin':
+        system.box.origin = np.array(c['origin'], dtype=float)
+        return None
+    if k == 'setpbc':
+        system.pbc = tuple(c['pbc'])
+        return None
+    V, o = np.array(c['V'], dtype=float), np.array(c['o'], dtype=float)
+    if k == 'setvects':
+        system.box.vects = V
+        return None
+    how, sc = c['how'], bool(c['scale'])
+    if how == 'vects':
+        system.box_set(vects=V, origin=o, scale=sc)
+    elif how == 'avect':
+        system.box_set(avect=V[0], bvect=V[1], cvect=V[2], origin=o, scale=sc)
+    elif how == 'lengths':
+        system.box_set(lx=V[0, 0], ly=V[1, 1], lz=V[2, 2], xy=V[1, 0], xz=V[2, 0], yz=V[2, 1], origin=o, scale=sc)
+    elif how == 'box.set':                      # only generated with scale False
+        system.box.set(vects=V, origin=o)
+    else:
+        raise cm.InfraError('unknown box_set form ' + how)
+    return None
+
+
+def _run_hist(hist):
+    """run the history on ONE System object; one record per operation (the run ends at the first exception)."""
+    import numpy as np
+    system = _build(hist['case'])
+    recs = []
+    for op in hist['ops']:
+        c = _concretize(system, op)
+        rec = {'c': c, 'before': _state(system), 'snap0': _snap(system)}
+        try:
+            rec['obs'] = _apply(system, c)
+            if c['op'] == 'norm':
+                new = rec['obs'][0]
+                rec['shared'] = [kk for kk in new.atoms.view.keys()
+                                 if np.shares_memory(new.atoms.view[kk], system.atoms.view[kk])]
+                if _raw_vects(new.box) is not None and np.shares_memory(_raw_vects(new.box), _raw_vects(system.box)):
+                    rec['shared'].append('box')
+        except cm.InfraError:
+            raise
+        except Exception as e:  # noqa
+            rec['err'] = _impl_err(e)
+            rec['exc'] = f'{type(e).__name__}: {e}'
+        rec['after'] = _state(system)
+        rec['snap1'] = _snap(system)
+        recs.append(rec)
+        if 'err' in rec:
+            break
+    return system, recs
+
+
+def _keeps_exact(c, before, after_vects):
+    """does this operation keep a grid state on the grid (every float operation of later steps exact)?"""
+    k = c['op']
+    if k in ('spos', 'norm', 'setpbc'):
+        return True
+    if k == 'setorigin':
+        return bool(c.get('gridkeep'))
+    if k == 'wrap':
+        return all(before['pbc'])
+    if k in ('boxset', 'setvects'):
+        if c.get('same'):
+            return True
+        if c.get('gridkeep') and _inv_exact(after_vects):
+            return True
+    return False
+
+
+def _hist_name(hist):
+    return '>'.join(o['op'] + ('*' if o.get('scale') else '') for o in hist['ops'])
+
+
+def _corr_hist(ctx, hists):
+    import numpy as np
+    runs = []
+    lines = []
+    for h in hists:
+        try:
+            system, recs = _run_hist(h)
+        except cm.InfraError:
+            raise
+        runs.append(recs)
+        exact = h['case']['regime'] == 'grid'
+        chain = exact
+        for rec in recs:
+            rec['exact'] = exact
+            exact = exact and 'err' not in rec and _keeps_exact(rec['c'], rec['before'], rec['after']['vects'])
+            lines.append(_line('hist', rec['before']) + ' ; ' + _op_line(rec['c']))
+        # a history that stays on the grid is also run as ONE chain on the object-level model
+        h['_chain'] = chain and exact and len(recs) == len(h['ops'])
+        if h['_chain']:
+            lines.append(_line('hist', recs[0]['before']) + ' ; ' + ' ; '.join(_op_line(r['c']) for r in recs))
+    outs = iter(ctx.driver.ask_many(lines))
+    for h, recs in zip(hists, runs):
+        secs = [next(outs) for _ in recs]
+        ctx.stats.case('hist:' + h['case']['regime'] + ':' + str(len(h['ops'])), (_hist_name(h), _line('hist', h['case'])),
+                       nontrivial=True, sample={'op': 'hist', 'ops': _hist_name(h), 'pbc': h['case']['pbc'],
+                                                'natoms': len(h['case']['pos'])})
+        ctx.extra['hist_steps'] = ctx.extra.get('hist_steps', 0) + len(recs)
+        ok = True
+        for k, (rec, sec) in enumerate(zip(recs, secs)):
+            if not _check_step(ctx, h, k, rec, sec):
+                ok = False
+                break
+        if h['_chain']:
+            chain = next(outs).split(' ; ')
+            ctx.extra['hist_chained'] = ctx.extra.get('hist_chained', 0) + 1
+            if ok and chain != [s_ for s_ in secs]:
+                # every step agreed exactly with the model started from the implementation's own state, so the
+                # chained run of the object-level model (cache carried along) must print the same sections
+                bad = next((i for i, (a, b) in enumerate(zip(chain, secs)) if a != b), min(len(chain), len(secs)))
+                ctx.disagree('hist:chain', f'history {_hist_name(h)}: the chained model run differs from the step-wise '
+                             f'one at step {bad}', {'op': 'hist', 'hist': _pub(h), 'step': bad})
+
+
+def _pub(h):
+    return {'case': h['case'], 'ops': h['ops']}
+
+
+def _split(sec):
+    tag, _, body = sec.partition(' ')
+    return tag, [p.split() for p in body.split(' | ')]
+
+
+def _check_step(ctx, h, k, rec, sec):
+    """compare one operation of a history: model started from the implementation's state before the operation."""
+    import numpy as np
+    c = rec['c']
+    name = c['op']
+    replay = {'op': 'hist', 'hist': _pub(h), 'step': k}
+    label = f'history {_hist_name(h)} step {k} ({name})'
+    b, a = rec['before'], rec['after']
+    pbc = b['pbc']
+    # --- heap facts first: what an operation must not touch -----------------------------------------
+    skip = ('vects', 'origin', 'pos') if name in ('wrap', 'boxset', 'rebuild', 'setvects', 'setorigin') else ()
+    s0, s1 = rec['snap0'], rec['snap1']
+    if name == 'setpbc':
+        s0 = dict(s0, pbc=tuple(c['pbc']))
+    bad = _same_snap(s0, s1, skip=skip)
+    if bad and 'err' not in rec:
+        if name == 'norm':
+            ctx.violate('normalize:input-modified', f'{label}: normalize changed its input: {bad}', replay)
+        else:
+            ctx.disagree('hist:carried', f'{label} changed {bad}', replay)
+        return False
+    # --- failures ------------------------------------------------------------------------------------
+    if sec.startswith('E') or sec.startswith('err:') or 'err' in rec:
+        merr = {'E assert': 'err:assert', 'E value': 'err:value'}.get(sec.strip(), sec.strip() if sec.startswith('err:') else None)
+        ctx.stats.case('hist:error', (label, sec[:40]), nontrivial=False)
+        if merr != rec.get('err'):
+            if name == 'norm' and _norm_raise_exempt(b):
+                return False
+            ctx.disagree('hist:error', f'{label}: implementation {rec.get("exc") or "succeeds"}, model '
+                         f'{merr or "succeeds"}', replay)
+        return False
+    tag, parts = _split(sec)
+    exact = rec['exact']
+    Vf, of = _fm(b['vects']), _fv(b['origin'])
+    kap = _kappa(Vf)
+    nV = _normV(b['vects'])
+    omax = max(abs(x) for x in b['origin'])
+    n = len(b['pos'])
+
+    def dis(key, what):
+        ctx.disagree('hist:' + key, f'{label}: {what}', replay)
+        return False
+
+    if tag == 'S':
+        ms = _chunks3([F(t) for t in parts[0]])
+        obs = np.asarray(rec['obs'], dtype=float)
+        if obs.shape != (n, 3):
+            return dis('spos', f'scaled positions have shape {obs.shape}')
+        for i in range(n):
+            smax = max(abs(float(x)) for x in ms[i])
+            for j in range(3):
+                d = abs(F(float(obs[i, j])) - ms[i][j])
+                if (exact and d != 0) or _over('corr:spos', d, _es(kap, smax)):
+                    return dis('spos', f'scaled coordinate {j} of atom {i} is {float(obs[i, j])!r}, model {float(ms[i][j])!r}')
+        return True
+    if tag == 'W':
+        mbox = [F(t) for t in parts[0]]
+        mpos = _chunks3([F(t) for t in parts[1]])
+        mflags = _chunks3([int(t) for t in parts[2]])
+        spos = _chunks3([F(t) for t in parts[3]])
+        fl = np.asarray(rec['obs'])
+        if fl.shape != (n, 3) or not np.issubdtype(fl.dtype, np.integer):
+            return dis('flags-shape', f'image flags have shape {fl.shape} dtype {fl.dtype}')
+        smaxs = [max(abs(float(x)) for x in s) for s in spos]
+        exempt = []
+        for i, s in enumerate(spos):
+            ex = set()
+            if not exact:
+                for j in range(3):
+                    if pbc[j] and abs(float(s[j] - _nearint(s[j]))) <= _es(kap, smaxs[i]):
+                        ex.add(j)
+            exempt.append(ex)
+        ctx.extra['exempt_flags'] = ctx.extra.get('exempt_flags', 0) + sum(len(e) for e in exempt)
+        for i in range(n):
+            for j in range(3):
+                if int(fl[i, j]) != mflags[i][j] and not (j in exempt[i] and abs(int(fl[i, j]) - mflags[i][j]) == 1):
+                    return dis('flags', f'image flag of atom {i} axis {j} (pbc {pbc}) is {int(fl[i, j])}, model '
+                               f'{mflags[i][j]} (scaled coordinate {float(spos[i][j])!r})')
+        oldinv = _inv(Vf)
+        for i in range(n):
+            ip = [F(float(x)) for x in a['pos'][i]]
+            d = [x - y for x, y in zip(ip, mpos[i])]
+            if exempt[i]:
+                cc = _vm(d, oldinv)
+                shift = [(_nearint(cc[j]) if j in exempt[i] else 0) for j in range(3)]
+                if any(abs(t) > 1 for t in shift):
+                    return dis('positions', f'atom {i} moved by {shift} cells relative to the model')
+                d = [x - y for x, y in zip(d, _vm([F(t) for t in shift], Vf))]
+            err = max(abs(float(x)) for x in d)
+            if (exact and err != 0) or _over('corr:wrap-pos', err, _ep(kap, smaxs[i], nV, omax)):
+                return dis('positions', f'atom {i} at {a["pos"][i]}, model {[float(x) for x in mpos[i]]} '
+                           f'(flags {fl[i].tolist()})')
+        ibox = [F(float(x)) for r in a['vects'] for x in r] + [F(float(x)) for x in a['origin']]
+        if all(pbc):
+            if ibox != mbox:
+                return dis('box', f'fully periodic wrap changed the box to {a["vects"]} origin {a["origin"]}')
+        else:
+            sall = max(smaxs)
+            es = _es(kap, sall)
+            undecided = (not exact) and any((not pbc[j]) and (abs(float(min(s[j] for s in spos))) <= es
+                                              or abs(float(max(s[j] for s in spos)) - 1) <= es) for j in range(3))
+            tolb = (4 * es + 8 * U * (1 + sall)) * nV + 8 * U * omax
+            if not undecided and any(_over('corr:wrap-box', abs(x - y), tolb) for x, y in zip(ibox, mbox)):
+                return dis('box', f'wrap (pbc {pbc}): new box {[float(x) for x in ibox]}, model {[float(x) for x in mbox]}')
+        return True
+    if tag == 'B':
+        mbox = [F(t) for t in parts[0]]
+        mpos = _chunks3([F(t) for t in parts[1]])
+        ibox = [F(float(x)) for r in a['vects'] for x in r] + [F(float(x)) for x in a['origin']]
+        if name == 'rebuild':
+            sc = max(abs(float(x)) for x in mbox[:9])
+            if any(_over('corr:rebuild-box', abs(x - y), CN * U * kap * kap * sc) for x, y in zip(ibox, mbox)):
+                return dis('box', f'rebuilt box {[float(x) for x in ibox]}, model {[float(x) for x in mbox]}')
+        elif ibox != mbox:
+            # the clean-up of the setter is decided in exact arithmetic by the model: a term within rounding of the
+            # 1e-9 threshold may go either way
+            m = max(abs(x) for x in mbox[:9])
+            soft = all(x == y or (abs(abs(float((x if x != 0 else y) / m)) - 1e-9) <= 1e-15) for x, y in zip(ibox, mbox))
+            if not soft:
+                return dis('box', f'box after the operation is {[float(x) for x in ibox]}, model {[float(x) for x in mbox]}')
+        scaled = name == 'rebuild' or (name == 'boxset' and c['scale'])
+        if not scaled:
+            if a['pos'] != b['pos']:
+                return dis('positions', 'absolute positions changed although scale is False')
+            return True
+        nVn = _normV(a['vects'])
+        onew = max(abs(x) for x in a['origin'])
+        oi = _inv(Vf)
+        cn = CN * kap if name == 'rebuild' else CS
+        for i in range(n):
+            smax = max(abs(float(x)) for x in _rel(_fv(b['pos'][i]), Vf, oi, of))
+            err = max(abs(F(float(x)) - y) for x, y in zip(a['pos'][i], mpos[i]))
+            if (exact and name != 'rebuild' and (c.get('same') or c.get('gridkeep')) and err != 0) or _over('corr:' + name + '-pos', err, _ep(kap, smax, nVn, onew, cn)):
+                return dis('positions', f'atom {i} (relative coordinates held) is at {a["pos"][i]}, model '
+                           f'{[float(x) for x in mpos[i]]}')
+        return True
+    if tag == 'N':
+        return _check_norm_step(ctx, h, k, rec, parts, label, replay, kap)
+    return dis('protocol', f'unexpected driver reply {sec[:60]!r}')
+
+
+def _check_norm_step(ctx, h, k, rec, parts, label, replay, kap):
+    import numpy as np
+    import atomman as am
+    b = rec['before']
+    pbc = b['pbc']
+    n = len(b['pos'])
+
+    def dis(key, what):
+        ctx.disagree('hist:norm-' + key, f'{label}: {what}', replay)
+        return False
+
+    new, T = rec['obs']
+    mbox = [F(t) for t in parts[0]]
+    mpos = _chunks3([F(t) for t in parts[1]])
+    mT = [F(t) for t in parts[3]]
+    spos = _chunks3([F(t) for t in parts[4]])
+    full = all(pbc)
+    es = [_es(kap, max(abs(float(x)) for x in s), CN * kap) for s in spos]
+    exempt = [{j for j in range(3) if pbc[j] and abs(float(s[j] - _nearint(s[j]))) <= es[i]} for i, s in enumerate(spos)]
+    ctx.extra['exempt_flags'] = ctx.extra.get('exempt_flags', 0) + sum(len(e) for e in exempt)
+    if not full and _norm_raise_exempt(b, spos):
+        return True
+    ibox = [F(float(x)) for x in new.box.vects.ravel()] + [F(float(x)) for x in new.box.origin]
+    sc = max(abs(float(x)) for x in mbox[:9])
+    if not full:
+        sc *= 1 + max(max(abs(float(x)) for x in s) for s in spos)
+    if any(_over('corr:norm-box', abs(x - y), CN * U * kap * kap * sc) for x, y in zip(ibox, mbox)):
+        return dis('box', f'normalized box {[float(x) for x in ibox]}, model {[float(x) for x in mbox]}')
+    k2 = _kappa2(_fm(b['vects']))
+    if any(_over('corr:norm-transform', abs(F(float(x)) - y), CN * U * k2 * k2) for x, y in zip(T.ravel(), mT)):
+        return dis('transform', f'transform {T.tolist()}, model {[float(x) for x in mT]}')
+    N = [mbox[0:3], mbox[3:6], mbox[6:9]]
+    Ni = _inv(N)
+    nVn = _normV([[float(x) for x in r] for r in N])
+    newpos = new.atoms.view['pos'].tolist()
+    for i in range(n):
+        d = [F(float(x)) - y for x, y in zip(newpos[i], mpos[i])]
+        if exempt[i]:
+            cc = _vm(d, Ni)
+            shift = [(_nearint(cc[j]) if j in exempt[i] else 0) for j in range(3)]
+            if any(abs(t) > 1 for t in shift):
+                return dis('positions', f'atom {i} moved by {shift} cells relative to the model')
+            d = [x - y for x, y in zip(d, _vm([F(t) for t in shift], N))]
+        smax = max(abs(float(x)) for x in spos[i])
+        if _over('corr:norm-pos', max(abs(float(x)) for x in d), _ep(kap, smax, nVn, 0.0, CN * kap)):
+            return dis('positions', f'atom {i} at {newpos[i]}, model {[float(x) for x in mpos[i]]}')
+    bad = _same_snap(rec['snap0'], _snap(new), skip=('vects', 'origin', 'pos'))
+    if bad:
+        return dis('carried', f'normalize did not carry over {bad}')
+    if rec.get('shared'):
+        ctx.violate('normalize:shares-memory', f'{label}: normalized system shares memory with its input: {rec["shared"]}',
+                    replay)
+        return False
+    return True
+
+
+# ---- generators of histories ---------------------------------------------------------------------
+def _far_atoms(rng, case, lo=1.0, hi=3.7):
+    """add atoms tens to thousands of cells outside along periodic directions (moderately along the others)."""
+    import numpy as np
+    V = np.array(case['vects'])
+    o = np.array(case['origin'])
+    grid = case['regime'] == 'grid'
+    extra = []
+    for _ in range(rng.randint(1, 3)):
+        s = []
+        for k in range(3):
+            if rng.random() < 0.3:
+                s.append(rng.randint(1, 7) / 8 if grid else rng.uniform(0.05, 0.95))
+            else:
+                m = 10 ** rng.uniform(lo, hi if case['pbc'][k] else min(hi, 2.0))
+                s.append(rng.choice([-1, 1]) * (float(int(m)) + rng.randint(0, 7) / 8 if grid else m))
+        extra.append((np.array(s) @ V + o).tolist())
+    case['pos'] = case['pos'] + extra
+    return _canon_case(case)
+
+
+def _strain(rng, lower=False):
+    """I + E with |E| log-uniform from far below the rounding level to a few percent."""
+    import numpy as np
+    eps = rng.choice([-1, 1]) * 10 ** rng.uniform(-13, -1.5)
+    kind = rng.choice(['iso', 'diag', 'shear', 'full', 'lower'])
+    E = np.zeros((3, 3))
+    if kind == 'iso':
+        E = eps * np.eye(3)
+    elif kind == 'diag':
+        E = np.diag([eps * rng.uniform(-1, 1) for _ in range(3)])
+    elif kind == 'shear':
+        i, j = rng.sample(range(3), 2)
+        if lower and j > i:
+            i, j = j, i
+        E[i, j] = eps
+    else:
+        E = eps * np.array([[rng.uniform(-1, 1) for _ in range(3)] for _ in range(3)])
+        if kind == 'lower' or lower:
+            E = np.tril(E)
+    return (np.eye(3) + E).tolist()
+
+
+def _box_op(rng, regime, kind):
+    import numpy as np
+    scale = rng.random() < 0.55
+    how = rng.choice(['vects', 'vects', 'avect', 'lengths'] + ([] if scale else ['box.set']))
+    if regime == 'grid':
+        r = rng.random()
+        if r < 0.2:
+            return {'op': 'boxset', 'same': True, 'scale': scale, 'how': how}
+        if r < 0.55:
+            # row permutation / negation / power-of-two scaling: the state stays on the grid (handedness may flip)
+            M = np.eye(3)
+            t = rng.random()
+            if t < 0.35:
+                M = M[rng.sample(range(3), 3)]
+            elif t < 0.6:
+                M[rng.randint(0, 2)] *= -1
+            else:
+                M = np.diag([rng.choice([1, 2, 0.5, 1, 4]) for _ in range(3)]).astype(float)
+            return {'op': 'boxset', 'left': M.tolist(), 'scale': scale, 'how': how, 'gridkeep': True}
+        # small dyadic shear / stretch: exactly representable input, tiny change of the cell
+        M = np.eye(3)
+        e = rng.choice([-1, 1]) * 2.0 ** -rng.choice([4, 12, 17, 20, 24, 27, 30, 34, 40])
+        if rng.random() < 0.5:
+            i, j = rng.sample(range(3), 2)
+            M[i, j] = e
+        else:
+            M[rng.randint(0, 2), ] *= (1 + e)
+        return {'op': 'boxset', 'left': M.tolist(), 'scale': scale, 'how': how}
+    r = rng.random()
+    if r < 0.08:
+        return {'op': 'boxset', 'same': True, 'scale': scale, 'how': how}
+    if r < 0.16:
+        V, _ = _float_cell(rng)
+        return {'op': 'boxset', 'vects': V.tolist(), 'scale': scale, 'how': how,
+                'origin': [rng.uniform(-10, 10) for _ in range(3)]}
+    lower = kind in ('normal', 'ortho') and rng.random() < 0.7
+    og = rng.choice(['keep', 'keep', 'follow'])
+    if rng.random() < 0.15:
+        return {'op': 'setvects', 'right': _strain(rng, lower)}
+    return {'op': 'boxset', 'right': _strain(rng, lower), 'scale': scale, 'how': how if lower else
+            ('avect' if how == 'lengths' else how), 'origin': og}
+
+
+def _gen_hist(rng, regime):
+    pbc = (True, True, True) if rng.random() < 0.75 else rng.choice(PBCS)
+    case = _grid_case(rng, pbc, n=rng.randint(1, 5)) if regime == 'grid' else \
+        _float_case(rng, pbc, n=rng.randint(1, 6), far=rng.random() < 0.3)
+    if rng.random() < 0.8:
+        case = _far_atoms(rng, case, hi=3.0 if regime == 'grid' else 3.7)
+    kind = case.get('kind')
+    ops = []
+    # opening: the cache is warmed (or not) before the cell is touched
+    first = rng.choice(['spos', 'wrap', 'norm', None, 'spos', 'wrap'])
+    if first:
+        ops.append({'op': first})
+    for _ in range(rng.randint(1, 4)):
+        r = rng.random()
+        if r < 0.45:
+            ops.append(_box_op(rng, regime, kind))
+        elif r < 0.55:
+            ops.append({'op': 'spos'})
+        elif r < 0.75:
+            ops.append({'op': 'wrap'})
+        elif r < 0.87:
+            ops.append({'op': 'norm'})
+        elif r < 0.91 and regime != 'grid':
+            ops.append({'op': 'rebuild'})
+        elif r < 0.95:
+            ops.append({'op': 'setorigin', 'gridkeep': regime == 'grid',
+                        'origin': [cm.dyadic(rng, -8, 8, 2) for _ in range(3)] if regime == 'grid'
+                        else [rng.uniform(-10, 10) for _ in range(3)]})
+        else:
+            ops.append({'op': 'setpbc', 'pbc': list(rng.choice(PBCS))})
+    if not any(o['op'] in ('boxset', 'setvects') for o in ops):
+        ops.insert(rng.randint(1 if first else 0, len(ops)), _box_op(rng, regime, kind))
+    # closing: look at the object again
+    ops.append({'op': rng.choice(['wrap', 'wrap', 'norm', 'spos'])})
+    if rng.random() < 0.5:
+        ops.append({'op': rng.choice(['wrap', 'norm'])})
+    return {'case': case, 'ops': ops}
+
+
 def correspond(ctx):
     rng = ctx.rng
     N = ctx.n(25, 400)
@@ -557,6 +1135,9 @@ def correspond(ctx):
             c = _float_case(rng, pbc, far=False, faces=False)
             norm_cases.append(_inside_nonperiodic(rng, c) if rng.random() < 0.7 else c)
     _corr_norm(ctx, norm_cases)
+    # histories on one object: the hidden state (cached reciprocal vectors) must never show
+    hists = [_gen_hist(rng, 'grid' if it % 3 == 0 else 'float') for it in range(ctx.n(150, 2500))]
+    _corr_hist(ctx, hists)
 
 
 def _inside_nonperiodic(rng, case):
@@ -577,35 +1158,49 @@ def _inside_nonperiodic(rng, case):
 # ----------------------------------------------------------------------------------------
 def _wrap_clauses(ctx, case, report=True):
     """returns the first violated clause (key, text) or None."""
-    import numpy as np
-    system = _build(case)
-    before = _snap(system)
-    V, o = _fm(before['vects']), _fv(before['origin'])
-    Vi = _inv(V)
-    pbc = case['pbc']
-    grid = case['regime'] == 'grid'
-    old = [_fv(p) for p in before['props']['pos']]
-    sold = [_rel(p, V, Vi, o) for p in old]
-    nV = _normV(before['vects'])
-    omax = max(abs(x) for x in case['origin'])
-
     def fail(key, what):
         if report:
             ctx.violate(key, what, {'op': 'wrap', 'case': case})
         return key, what
 
+    return _wrap_clauses_sys(_build(case), case['regime'] == 'grid', fail)
+
+
+def _wrap_clauses_sys(system, grid, fail):
+    """the wrap clauses of the property on a live System (wraps it twice); exact rational oracle.
+    `grid`: every float operation is exact on this state, so the clauses are decided with zero tolerance."""
+    import numpy as np
+    before = _snap(system)
+    V, o = _fm(before['vects']), _fv(before['origin'])
+    Vi = _inv(V)
+    pbc = [bool(p) for p in before['pbc']]
+    old = [_fv(p) for p in before['props']['pos']]
+    sold = [_rel(p, V, Vi, o) for p in old]
+    nV = _normV(before['vects'])
+    omax = max(abs(float(x)) for x in before['origin'])
+    kap = _kappa(V)
+
     try:
         flags = np.asarray(system.wrap(return_imageflags=True))
     except Exception as e:  # noqa
         return fail('wrap:raises', f'wrap raised {type(e).__name__}: {e}')
+    if flags.shape != (len(old), 3):
+        return fail('wrap:flags-shape', f'image flags have shape {flags.shape}')
     new = [_fv(p) for p in system.atoms.view['pos']]
     NV, no = _fm(system.box.vects), _fv(system.box.origin)
     if _det(NV) == 0:
         return fail('wrap:box-singular', 'wrap produced a singular cell')
     NVi = _inv(NV)
+    rinv = _colsum(Vi)
+    rinvN = _colsum(NVi)
+    kapN = _kappa(NV)
+    nVN = _normV(system.box.vects)
+    omaxN = max(abs(float(x)) for x in no)
+    sall = max(max(abs(float(x)) for x in s) for s in sold)
     for i in range(len(old)):
         smax = max(abs(float(x)) for x in sold[i])
-        tol = TOL * (1 + smax) * nV + TOL * omax
+        tol = _ep(kap, smax, nV, omax)
+        rtol_ = _er(kap, smax, omax, rinv)
         # (1) whole cell vectors along periodic directions only; flags reconstruct the original positions
         for k in range(3):
             if not pbc[k] and int(flags[i, k]) != 0:
@@ -614,29 +1209,45 @@ def _wrap_clauses(ctx, case, report=True):
         err = max(abs(float(a - b)) for a, b in zip(back, old[i]))
         if (grid and err != 0) or err > tol:
             return fail('wrap:reconstruct', f'atom {i} (pbc {pbc}): new position + flags·old vectors = '
-                        f'{[float(x) for x in back]} but it was at {[float(x) for x in old[i]]} (flags {flags[i].tolist()})')
-        # (2) every atom inside the new cell (faces included)
-        s = _rel(new[i], NV, NVi, no)
-        stol = 0 if grid and all(pbc) else TOL * (1 + smax)
+                        f'{[float(x) for x in back]} but it was at {[float(x) for x in old[i]]} (flags {flags[i].tolist()}, '
+                        f'off by {err:.3g}, rounding bound {tol:.3g})')
+        # (1') the same clause in lattice terms: the displacement is a whole number of OLD cell vectors, zero along
+        #      non-periodic directions
+        d = _vm([a - b for a, b in zip(old[i], new[i])], Vi)
         for k in range(3):
-            if float(s[k]) < -stol or float(s[k]) > 1 + stol:
+            want = _nearint(d[k]) if pbc[k] else 0
+            off = abs(float(d[k] - want))
+            if (grid and off != 0) or off > rtol_:
+                return fail('wrap:non-lattice-move', f'atom {i} (pbc {pbc}) was moved by {[float(x) for x in d]} old cell '
+                            f'vectors: not a whole number along axis {k} (off by {off:.3g}, rounding bound {rtol_:.3g})')
+        # (2) every atom inside the new cell (faces included)
+        sn = _rel(new[i], NV, NVi, no)
+        stol = 0 if grid and all(pbc) else _er(kap, smax, omax, rinv) + _er(kapN, 1.0, omaxN, rinvN)
+        for k in range(3):
+            if float(sn[k]) < -stol or float(sn[k]) > 1 + stol:
                 return fail('wrap:outside', f'atom {i} is outside the cell after wrap (pbc {pbc}): relative coordinate '
-                            f'{float(s[k])!r} along axis {k}')
+                            f'{float(sn[k])!r} along axis {k}')
     # (3) periodic cell vectors untouched; non-periodic ones only lengthened; old cell inside the new
     lo = _vm([a - b for a, b in zip(no, o)], Vi)          # new origin in old relative coordinates
+    tol3 = 8 * U * (omax + (1 + sall) * nV) * rinv + _es(kap, sall)
+    # the Box.vects setter zeroes components below 1e-9 of the largest one: when a non-periodic vector is lengthened
+    # a small component of any vector may disappear (documented behaviour of the setter, see ASSUMPTIONS)
+    maxN = max(abs(float(x)) for r in NV for x in r)
+    clean = CLEAN * maxN * rinv * 3
     for k in range(3):
         w = _vm(NV[k], Vi)                                 # new vector k in units of the old vectors
         if pbc[k]:
-            if not np.array_equal(system.box.vects[k], before['vects'][k]):
+            if not all(a == b or (a == 0 and abs(b) <= CLEAN * maxN and not all(pbc))
+                       for a, b in zip(system.box.vects[k].tolist(), before['vects'][k].tolist())):
                 return fail('wrap:periodic-vector-changed', f'periodic cell vector {k} changed from '
                             f'{before["vects"][k].tolist()} to {system.box.vects[k].tolist()}')
-            if abs(float(lo[k])) > TOL:
+            if (all(pbc) and lo[k] != 0) or abs(float(lo[k])) > tol3:
                 return fail('wrap:origin-moved-periodic', f'origin moved by {float(lo[k])!r} cell vectors along periodic axis {k}')
         else:
             off = [abs(float(w[j])) for j in range(3) if j != k]
-            if max(off) > TOL * max(1.0, abs(float(w[k]))):
+            if max(off) > 8 * U * kap * max(1.0, abs(float(w[k]))) + clean:
                 return fail('wrap:vector-turned', f'non-periodic cell vector {k} changed direction: {[float(x) for x in w]}')
-            if float(lo[k]) > TOL or float(lo[k] + w[k]) < 1 - TOL:
+            if float(lo[k]) > tol3 or float(lo[k] + w[k]) < 1 - 2 * tol3 - clean:
                 return fail('wrap:cell-shrunk', f'old cell not contained in the new one along axis {k}: new cell spans '
                             f'[{float(lo[k])!r}, {float(lo[k] + w[k])!r}] in old relative units')
     bad = _same_snap(before, _snap(system), skip=('vects', 'origin', 'pos'))
@@ -644,52 +1255,77 @@ def _wrap_clauses(ctx, case, report=True):
         return fail('wrap:carried', f'wrap changed {bad}')
     # (4) wrapping again changes nothing
     snap1 = _snap(system)
-    flags2 = np.asarray(system.wrap(return_imageflags=True))
+    try:
+        flags2 = np.asarray(system.wrap(return_imageflags=True))
+    except Exception as e:  # noqa
+        return fail('wrap:raises', f'second wrap raised {type(e).__name__}: {e}')
     snap2 = _snap(system)
-    near = any(abs(float(x) - round(float(x))) <= TOL * (1 + abs(float(x))) for p in new
-               for x in _rel(p, NV, NVi, no))
+    band = _er(kap, sall, omax, rinv) + _er(kapN, 1.0, omaxN, rinvN)
+    near = any(abs(float(x) - round(float(x))) <= band for p in new for x in _rel(p, NV, NVi, no))
     if not near or (grid and all(pbc)):
         if flags2.any():
             return fail('wrap:not-idempotent', f'second wrap returns non-zero image flags {flags2.tolist()}')
-        sc = max(abs(float(x)) for r in NV for x in r)
-        if not (np.allclose(snap1['vects'], snap2['vects'], rtol=0, atol=TOL * sc)
-                and np.allclose(snap1['origin'], snap2['origin'], rtol=0, atol=TOL * (sc + omax))
-                and np.allclose(snap1['props']['pos'], snap2['props']['pos'], rtol=0,
-                                atol=TOL * (1 + max(abs(float(x)) for s in sold for x in s)) * nV + TOL * omax)):
-            return fail('wrap:not-idempotent', 'second wrap changes the box or the positions')
+        if not (np.array_equal(snap1['vects'], snap2['vects']) and np.array_equal(snap1['origin'], snap2['origin'])):
+            return fail('wrap:not-idempotent', f'second wrap changes the box from {snap1["vects"].tolist()} / '
+                        f'{snap1["origin"].tolist()} to {snap2["vects"].tolist()} / {snap2["origin"].tolist()}')
+        if not np.allclose(snap1['props']['pos'], snap2['props']['pos'], rtol=0, atol=_ep(kapN, 1.0, nVN, omaxN)):
+            return fail('wrap:not-idempotent', 'second wrap moves atoms that were already inside the cell')
     return None
 
 
 def _min_image_d2(d, V, Vi_np, V_np):
-    """exact squared length of the nearest image of separation d (Fractions) under lattice V (fully periodic):
-    the minimising image is located in floating point over a provably sufficient range, then evaluated exactly."""
+    """exact squared length of the nearest image of separation d (Fractions) under lattice V (fully periodic).
+    A first candidate (rounding of the relative separation) gives a distance dc; every closer image has relative
+    coordinates |s_k + n_k| <= dc |column k of V^-1|, so the finite box of integers searched is provably sufficient.
+    Candidates are ranked in floating point, the best few are evaluated exactly. None if the box is too large."""
     import numpy as np
     dn = np.array([float(x) for x in d])
     s = dn @ Vi_np
-    base = np.round(s)
-    L = 0.5 * np.abs(V_np).sum(axis=0)
-    L = float(np.linalg.norm(L))
-    R = [min(12, int(math.ceil(2 * L * np.linalg.norm(Vi_np[:, k]))) + 1) for k in range(3)]
-    rng0 = [np.arange(-r, r + 1) for r in R]
-    n = np.stack(np.meshgrid(*rng0, indexing='ij'), axis=-1).reshape(-1, 3) - base
+    n0 = -np.round(s)
+    dc = float(np.linalg.norm(dn + n0 @ V_np)) * (1 + 1e-9) + 1e-12
+    lo, hi = [], []
+    for k in range(3):
+        rad = dc * float(np.linalg.norm(Vi_np[:, k])) * (1 + 1e-9) + 1e-9
+        lo.append(int(math.ceil(-s[k] - rad)))
+        hi.append(int(math.floor(-s[k] + rad)))
+    size = 1
+    for k in range(3):
+        size *= max(hi[k] - lo[k] + 1, 1)
+    if size > 2_000_000:
+        return None
+    rng0 = [np.arange(lo[k], hi[k] + 1, dtype=float) if hi[k] >= lo[k] else np.array([n0[k]]) for k in range(3)]
+    n = np.stack(np.meshgrid(*rng0, indexing='ij'), axis=-1).reshape(-1, 3)
+    n = np.vstack([n, n0[None, :]])
     cand = dn + n @ V_np
     d2 = (cand * cand).sum(axis=1)
-    best = n[int(np.argmin(d2))]
-    x = [a + b for a, b in zip(d, _vm([F(int(t)) for t in best], V))]
-    return sum(c * c for c in x)
+    m = float(d2.min())
+    # ranking error of the float evaluation: relative 1e-9 of the larger of |d| and the cell size
+    slack = 1e-9 * (m + float(np.abs(dn).max()) * float(np.abs(V_np).max()) * 1e-3) + 1e-12
+    best = np.argsort(d2)[:16]
+    out = None
+    for t in best:
+        if d2[t] > m + slack and out is not None:
+            break
+        x = [a + b for a, b in zip(d, _vm([F(int(q)) for q in n[t]], V))]
+        v = sum(c * c for c in x)
+        out = v if out is None or v < out else out
+    return out
 
 
 def _norm_clauses(ctx, case, report=True):
-    import numpy as np
-    import atomman as am
-    system = _build(case)
-    before = _snap(system)
-
     def fail(key, what):
         if report:
             ctx.violate(key, what, {'op': 'norm', 'case': case})
         return key, what
 
+    return _norm_clauses_sys(_build(case), fail)
+
+
+def _norm_clauses_sys(system, fail):
+    """the normalize clauses of the property on a live, fully periodic System; exact rational oracle."""
+    import numpy as np
+    import atomman as am
+    before = _snap(system)
     try:
         new, T = system.normalize(return_transform=True)
     except Exception as e:  # noqa
@@ -710,42 +1346,52 @@ def _norm_clauses(ctx, case, report=True):
     # right-handed LAMMPS-compatible cell
     if not new.box.is_lammps_norm() or not (N[0][1] == 0 and N[0][2] == 0 and N[1][2] == 0 and _det(N) > 0):
         return fail('normalize:not-lammps-normal', f'new cell {new.box.vects.tolist()} is not a right-handed LAMMPS cell')
+    kap = max(_kappa(V), _kappa(N))
+    ub = CN * U * kap * kap            # sqrt/arccos/cos/division of the cell parameters: conditioning enters twice
+    k2 = max(_kappa2(V), _kappa2(N))
+    ubT = CN * U * k2 * k2             # the transformation comes from a least-squares solve (normwise conditioning)
+    # the Box.vects setter zeroes a tilt factor below 1e-9 of the largest component (documented behaviour, see
+    # ASSUMPTIONS): where the new cell has an exactly vanishing tilt factor, that much of a change is the setter's
+    cl = CLEAN * max(abs(float(x)) for r in N for x in r) if (N[1][0] == 0 or N[2][0] == 0 or N[2][1] == 0) else 0.0
     # same lengths, angles and volume
     G0, G1 = _gram(V), _gram(N)
     for i in range(3):
         for j in range(3):
-            if abs(float(G0[i][j] - G1[i][j])) > TOL * sc * sc * 10:
+            if _over('normalize:gram', abs(G0[i][j] - G1[i][j]), ub * sc * sc + 6 * cl * sc):
                 return fail('normalize:gram', f'cell vectors {i},{j}: dot product {float(G0[i][j])!r} became {float(G1[i][j])!r} '
                             '(lengths/angles not preserved)')
-    if abs(float(_det(N) - abs(_det(V)))) > TOL * 100 * abs(float(_det(V))):
+    if _over('normalize:volume', abs(_det(N) - abs(_det(V))), ub * abs(float(_det(V)))):
         return fail('normalize:volume', f'volume {float(abs(_det(V)))!r} became {float(_det(N))!r}')
     # returned transformation: proper rotation taking the old (reversed) vectors to the new ones
     Tf = _fm(T)
     TT = _mm(Tf, _tr(Tf))
-    if any(abs(float(TT[i][j]) - (1.0 if i == j else 0.0)) > 1e-8 for i in range(3) for j in range(3)) \
-            or abs(float(_det(Tf)) - 1) > 1e-8:
+    if any(_over('normalize:transform-not-rotation', abs(TT[i][j] - (1 if i == j else 0)), ubT + 4 * cl * k2 / sc) for i in range(3)
+           for j in range(3)) or _over('normalize:transform-not-rotation', abs(_det(Tf) - 1), ubT + 4 * cl * k2 / sc):
         return fail('normalize:transform-not-rotation', f'returned transformation {T.tolist()} is not a proper rotation')
     for i in range(3):
         img = [sum(Tf[r][c] * V[i][c] for c in range(3)) for r in range(3)]
-        if any(abs(float(a - b)) > 1e-8 * sc * 10 for a, b in zip(img, N[i])):
+        if any(_over('normalize:transform-wrong', abs(a - b), ubT * sc + 2 * cl * k2) for a, b in zip(img, N[i])):
             return fail('normalize:transform-wrong', f'T·(old vector {i}) = {[float(x) for x in img]} but the new vector is '
                         f'{[float(x) for x in N[i]]}')
     # every atom inside; relative coordinates kept modulo 1 (so all image distances are kept)
     Ni = _inv(N)
+    rinv = _colsum(Vi)
+    omax = max(abs(float(x)) for x in o)
     old = [_fv(p) for p in before['props']['pos']]
     newp = [_fv(p) for p in new.atoms.view['pos']]
+    rel0 = [_rel(p, V, Vi, o) for p in old]
     for i in range(len(old)):
-        s0 = _rel(old[i], V, Vi, o)
+        s0 = rel0[i]
         s1 = _rel(newp[i], N, Ni, no)
-        stol = TOL * (1 + max(abs(float(x)) for x in s0)) * 10
+        stol = 4 * _er(kap, max(abs(float(x)) for x in s0), omax, rinv)
         for k in range(3):
-            if float(s1[k]) < -stol or float(s1[k]) > 1 + stol:
+            if _over('normalize:outside', max(-s1[k], s1[k] - 1, 0), stol):
                 return fail('normalize:outside', f'atom {i} is outside the normalized cell: relative coordinate {float(s1[k])!r} '
                             f'along axis {k}')
             dk = s0[k] - s1[k]
-            if abs(float(dk - _nearint(dk))) > stol:
+            if _over('normalize:moved', abs(dk - _nearint(dk)), stol):
                 return fail('normalize:moved', f'atom {i}: relative coordinate along axis {k} went from {float(s0[k])!r} to '
-                            f'{float(s1[k])!r} (not a whole number of cells)')
+                            f'{float(s1[k])!r} (not a whole number of cells; rounding bound {stol:.3g})')
     # true nearest-image distances between atoms unchanged (independent of the above: brute force over images)
     n = len(old)
     pairs = [(i, j) for i in range(n) for j in range(i + 1, n)][:10]
@@ -756,13 +1402,49 @@ def _norm_clauses(ctx, case, report=True):
         for i, j in pairs:
             d0 = _min_image_d2([a - b for a, b in zip(old[j], old[i])], V0, V0i, V0n)
             d1 = _min_image_d2([a - b for a, b in zip(newp[j], newp[i])], N, Nni, Nn)
-            s0 = max(abs(float(x)) for x in _rel(old[i], V, Vi, o) + _rel(old[j], V, Vi, o))
-            if abs(float(d0 - d1)) > TOL * 100 * (1 + s0) * sc * sc:
+            if d0 is None or d1 is None:          # image box too large to enumerate (extremely skewed cell)
+                continue
+            s0 = max(abs(float(x)) for x in rel0[i] + rel0[j])
+            # |d0^2 - d1^2| <= 2 |d| |delta| with |d| <= the cell diameter and |delta| the position bound above
+            dtol = 8 * (ub * sc + _ep(kap, s0, 3 * sc, omax) + 3 * cl) * 3 * sc
+            if _over('normalize:distance', abs(d0 - d1), dtol):
                 return fail('normalize:distance', f'nearest-image distance between atoms {i} and {j} changed from '
                             f'{math.sqrt(float(d0))!r} to {math.sqrt(float(d1))!r}')
     bad = _same_snap(before, _snap(new), skip=('vects', 'origin', 'pos'))
     if bad:
         return fail('normalize:carried', f'normalize did not carry over {bad}')
+    return None
+
+
+def _hist_clauses(ctx, hist, report=True):
+    """the wrap / normalize clauses of the property at every wrap / normalize of a history on ONE System object."""
+    system = _build(hist['case'])
+    exact = hist['case']['regime'] == 'grid'
+    for k, op in enumerate(hist['ops']):
+        c = _concretize(system, op)
+        before = _state(system)
+
+        def fail(key, what, k=k, name=c['op']):
+            what = f'history {_hist_name(hist)} step {k} ({name}): {what}'
+            if report:
+                ctx.violate(key, what, {'op': 'hist', 'hist': _pub(hist), 'step': k})
+            return key, what
+
+        if c['op'] == 'wrap':
+            res = _wrap_clauses_sys(system, exact, fail)
+        elif c['op'] == 'norm' and all(system.pbc):
+            res = _norm_clauses_sys(system, fail)
+        else:
+            res = None
+            try:
+                _apply(system, c)
+            except cm.InfraError:
+                raise
+            except Exception:  # noqa  (partially periodic normalize may refuse; box operations are not clauses)
+                return None
+        if res:
+            return res
+        exact = exact and _keeps_exact(c, before, system.box.vects.tolist())
     return None
 
 
@@ -778,15 +1460,30 @@ def search(ctx, broken):
         case = _grid_case(rng, (True, True, True)) if it % 4 == 0 else _float_case(rng, (True, True, True))
         ctx.stats.case('oracle:normalize', _line('norm', case))
         _norm_clauses(ctx, case)
+    for it in range(ctx.n(150, 2500) * mult):
+        h = _gen_hist(rng, 'grid' if it % 3 == 0 else 'float')
+        ctx.stats.case('oracle:history', (_hist_name(h), _line('hist', h['case'])))
+        _hist_clauses(ctx, h)
+    ctx.extra['bound_used'] = {k: round(v, 4) for k, v in sorted(MARGIN.items())}
 
 
 def replay(ctx, payload):
     r = payload.get('replay') or {}
-    cases = [r] if r.get('case') else [d for d in payload.get('disagreements', []) if d and d.get('case')]
+    cases = [r] if (r.get('case') or r.get('hist')) else \
+        [d for d in payload.get('disagreements', []) if d and (d.get('case') or d.get('hist'))]
     if not cases:
         search(ctx, True)
         return
     for r in cases:
+        if r.get('hist'):
+            h = r['hist']
+            res = _hist_clauses(ctx, h)
+            print('replay history', _hist_name(h), 'pbc', h['case']['pbc'], '->', res or 'all clauses hold')
+            if ctx.driver is not None:
+                _corr_hist(ctx, [{'case': h['case'], 'ops': h['ops']}])
+                for d in ctx.disagreements:
+                    print('replay: model/implementation disagree:', d.what)
+            continue
         case = r['case']
         f = _wrap_clauses if r.get('op') == 'wrap' else _norm_clauses
         res = f(ctx, case)
